@@ -114,8 +114,8 @@ ReadVerdict ==
 \* only judged for files that passed "written" (otherwise there is nothing well-formed to read)
 Readback ==
   /\ Is("readback")
-  /\ IF good /\ ReadVerdict # "" THEN Fail(ReadVerdict) ELSE TRUE
-  /\ UNCHANGED <<kind, scaler, inp, file, good, lib, meta, wst>> /\ Consume
+  /\ IF good /\ ReadVerdict # "" THEN Fail(ReadVerdict) /\ good' = FALSE ELSE good' = good
+  /\ UNCHANGED <<kind, scaler, inp, file, lib, meta, wst>> /\ Consume
 
 \* The law of the table-count sweep (Container!InvAgree): header.Read is given a well-formed container
 \* with the same tables, built by the harness's independent assembler.  Write accepted <=> Read accepts.
@@ -123,7 +123,7 @@ ReadAlt ==
   /\ Is("readalt")
   /\ IF E.panic THEN Fail("read-panic")
      ELSE IF wst = "refused" /\ E.ok THEN Fail("write-refuses-what-read-accepts")
-     ELSE IF wst = "ok" /\ ~E.ok THEN Fail("read-refuses-what-write-accepts")
+     ELSE IF wst = "ok" /\ good /\ ~E.ok THEN Fail("read-refuses-what-write-accepts")   \* (not reported twice)
      ELSE IF E.ok /\ E.ntabs # Cardinality(Present(inp)) THEN Fail("read-count")
      ELSE TRUE
   /\ UNCHANGED <<kind, scaler, inp, file, good, lib, meta, wst>> /\ Consume
